@@ -2,6 +2,10 @@
 pub mod oneshot {
     use super::*;
     pub struct Sender<T> { pub t: Option<T> }
+    impl<T> Sender<T> {
+        #[verifier::external_body]
+        pub fn send(self, t: T) -> Result<(), T> { unimplemented!() }
+    }
     /// receiving half: awaiting it yields the reply or an error (its `Future` impl sits outside the verus! block; the
     /// awaited value is unconstrained)
     pub struct Receiver<T> { pub t: Option<T> }
